@@ -391,6 +391,31 @@ def run_c15(version, tier, seed, escalate, T):
             violations.append({"signature": {"clause": "types-save-fails", "version": version},
                                "what": f"v{version}: saving / re-loading a scenario with one component of every type the version has failed: {type(e).__name__}: {str(e)[:200]}",
                                "replay": {"version": version, "op": "types-reload"}})
+        # a type the version lacks is refused EVERY time it is asked for (same process, another trigger), not only the first
+        for kind, hkey, enum, new_attr, tkey in (("e", "effect_helpers", "EffectId", "new_effect", "effects"),
+                                                  ("c", "condition_helpers", "ConditionId", "new_condition", "conditions")):
+            ids = {t["id"] for t in vt[tkey]}
+            by_const = {expected_member(h, H[hkey]): h for h in H[hkey] if not h["deprecated"]}
+            for rnd in (2, 3):
+                trig = scnT.trigger_manager.add_trigger(f"again{rnd}-" + kind)
+                for name, ty in H["enums"][enum].items():
+                    h = by_const.get(name)
+                    if h is None or ty in ids:
+                        continue
+                    try:
+                        with warnings.catch_warnings():
+                            warnings.simplefilter("ignore")
+                            getattr(getattr(trig, new_attr), h["name"])()
+                        obs = "ok"
+                    except Exception as e:      # noqa
+                        obs = "err " + B.err_kind(e)
+                    cases.append({"cmd": f"create {vh} {kind} {ty}", "obs": obs, "key": f"{version}:{kind}:{ty}:again{rnd}", "nontrivial": True,
+                                  "tags": ["type:lacks", f"create-again{rnd}:" + obs.replace("err ", "")]})
+                    if obs != "err unsupported":
+                        violations.append({"signature": {"clause": "type-not-refused", "kind": kind, "type": ty, "request": "repeated"},
+                                           "what": f"v{version}: type {name} ({ty}) is not in the version's table; request number {rnd} in this process "
+                                                   f"through {h['name']}() gives {obs} instead of UnsupportedAttributeError",
+                                           "replay": {"version": version, "op": "create", "kind": kind, "type": ty, "helper": h["name"], "request": rnd}})
         # thorough tier / the shipped default: every type alone in its own file at the file's own trigger version
         if vt["has_default_scenario"]:
             todo = [(k, ty) for k in ("e", "c") for ty, _ in created[k]]
